@@ -24,7 +24,10 @@ Theorem C09_swap_exchanges_region : forall A a1 b1 a2 b2,
 Proof. exact swap_mask_merge. Qed.
 Print Assumptions C09_swap_exchanges_region.
 
-(* the region given as int / list / array / tensor of site indices is the mask of those sites *)
+(* the region given as int / list / array / tensor of site indices is the mask of those sites
+   (indices >= n, negative indices, duplicates and boolean masks are outside the property and not modelled:
+   [mask_of_sites] ignores indices >= n where torch raises IndexError) *)
+(* definitional: restates the model *)
 Theorem C09_region_sites_as_mask : forall n (A : list nat) j, (j < n)%nat ->
   length (mask_of_sites n A) = n /\ (nth j (mask_of_sites n A) false = true <-> In j A).
 Proof. intros n A j Hj; split; [exact (mask_of_sites_length n A) | exact (mask_of_sites_spec n A j Hj)]. Qed.
@@ -107,7 +110,10 @@ Theorem C09_cauchy_schwarz : forall n (x y : bits -> R * R),
 Proof. exact cauchy_schwarz_bits. Qed.
 Print Assumptions C09_cauchy_schwarz.
 
-(* 5. inside a batch, row i is paired with row i-1 (cyclically); every row is used once in each replica role *)
+(* 5. inside a batch, row i is paired with row i-1 (cyclically); every row is used once in each replica role.
+   The property only asks for "a cyclic neighbour": the check accepts a shift by one in either direction, detected
+   from the output; the model mirrors the code's torch.roll(samples, 1, 0). *)
+(* definitional: restates the model *)
 Theorem C09_pairing_is_cyclic : forall (st : istate) (A : list nat) (rows : list bits) i,
   (i < length rows)%nat ->
   nth i (swap_apply ROps st A rows) 0 =
@@ -116,6 +122,7 @@ Theorem C09_pairing_is_cyclic : forall (st : istate) (A : list nat) (rows : list
 Proof. exact pairing_is_cyclic. Qed.
 Print Assumptions C09_pairing_is_cyclic.
 
+(* definitional: restates the model (roll1 is a rotation of the list) *)
 Theorem C09_pairing_uses_each_row_once : forall (rows : list bits) (st : istate (T:=R)) (A : list nat),
   Permutation (roll1 rows) rows /\ length (swap_apply ROps st A rows) = length rows.
 Proof. intros rows st A; split; [exact (roll1_perm rows) | exact (swap_apply_length st A rows)]. Qed.
